@@ -4,10 +4,13 @@ package election
 
 // Machine-checked contracts for /verif (read as text by the VC generator; no code).
 //
+//@ ghost gObs []RootAndSlot
+//@
 //@ funcfield Election.observe
 //@   pure
 //@ funcfield Election.getFrameRoots
 //@   pure
+//@   ensures forall(j, 0, len(result), result[j].Slot.Frame == f)
 //@
 //@ inv Election elinv(el): el != nil && el.validators != nil && el.observe != nil && el.getFrameRoots != nil && el.votes != nil && el.decidedRoots != nil && valid(el.validators)
 //@
@@ -38,12 +41,15 @@ package election
 //@   ensures  forall(r RootAndSlot, inRL(a, n, r) == inRL(b, n, r))
 //@ func (*Election).observedRoots
 //@   requires elinv(el)
-//@   ensures  fresh(result) && len(result) <= len(el.getFrameRoots(frame))
+//@   modifies gObs
+//@   ghost gObs = result
+//@   ensures  fresh(result) && len(result) <= len(el.getFrameRoots(frame)) && forall(j, 0, len(result), result[j].Slot.Frame == frame)
 //@   ensures  forall(r RootAndSlot, inRL(result, len(result), r) == seenL(el, root, el.getFrameRoots(frame), len(el.getFrameRoots(frame)), r))
 //@   loop 1 modifies observedRoots[*]
 //@   loop 1 invariant arrof(observedRoots) == arrof(atentry(observedRoots)) || arrfresh(observedRoots, _loopalloc)
 //@   loop 1 invariant 0 <= _k && _k <= len(_range) && len(observedRoots) <= _k && arrfresh(observedRoots, old(_alloc)) && !arrfresh(_range, old(_alloc))
 //@   loop 1 invariant forall(r RootAndSlot, inRL(observedRoots, len(observedRoots), r) == seenL(el, root, _range, _k, r))
+//@   loop 1 invariant forall(j, 0, len(observedRoots), observedRoots[j].Slot.Frame == frame)
 //@   loop 1 hint assert len(observedRoots) >= len(iterold(observedRoots)) && forall(j, 0, len(iterold(observedRoots)), observedRoots[j] == iterold(observedRoots)[j])
 //@   loop 1 hint use inRL_ext(observedRoots, iterold(observedRoots), len(iterold(observedRoots)))
 //@   loop 1 hint assert forall(r RootAndSlot, seenL(el, root, _range, _k - 1, r) == iterold(seenL(el, root, _range, _k, r)))
@@ -76,3 +82,34 @@ package election
 //@   loop 1 hint use inVL_ext(notDecidedRoots, iterold(notDecidedRoots), len(iterold(notDecidedRoots)))
 //@   loop 1 hint assert forall(v idx.ValidatorID, inVL(_range, _k - 1, v) == iterold(inVL(_range, _k, v)))
 //@   loop 1 hint assert len(notDecidedRoots) == len(iterold(notDecidedRoots)) || (len(notDecidedRoots) == len(iterold(notDecidedRoots)) + 1 && notDecidedRoots[len(notDecidedRoots)-1] == _range[_k-1] && !has(el.decidedRoots, _range[_k-1]))
+//@
+//@ // ---- ProcessRoot: the voting rules ----
+//@ spec vid(r RootAndSlot, v idx.ValidatorID) voteID = mk("voteID", r, v)
+//@ spec wOf(el *Election, v idx.ValidatorID) int = el.validators.cache.weights[el.validators.cache.indexes[v]]
+//@ // weight of the roots in L[0..n) whose recorded vote for subject v is yes / no (vt = the vote table before the call)
+//@ spec ysumL(el *Election, vt map[voteID]voteValue, L []RootAndSlot, v idx.ValidatorID, n int) int = ite(n <= 0, 0, ysumL(el, vt, L, v, n-1) + ite(vt[vid(L[n-1], v)].yes, wOf(el, L[n-1].Slot.Validator), 0))
+//@ spec nsumL(el *Election, vt map[voteID]voteValue, L []RootAndSlot, v idx.ValidatorID, n int) int = ite(n <= 0, 0, nsumL(el, vt, L, v, n-1) + ite(vt[vid(L[n-1], v)].yes, 0, wOf(el, L[n-1].Slot.Validator)))
+//@
+//@ func (*Election).ProcessRoot
+//@   requires elinv(el) && len(el.validators.values) >= 1
+//@   modifies el.votes[*], el.decidedRoots[*], gObs
+//@   ensures  [old_root] old(newRoot.Slot.Frame <= el.frameToDecide) ==> forall(k voteID, has(el.votes, k) == old(has(el.votes, k)) && el.votes[k] == old(el.votes[k]))
+//@   ensures  [others] forall(k voteID, k.fromRoot != newRoot ==> has(el.votes, k) == old(has(el.votes, k)) && el.votes[k] == old(el.votes[k]))
+//@   ensures  [round1] old(newRoot.Slot.Frame == el.frameToDecide + 1) ==> forall(v idx.ValidatorID, has(el.votes, vid(newRoot, v)) && !old(has(el.votes, vid(newRoot, v))) ==> !el.votes[vid(newRoot, v)].decided && el.votes[vid(newRoot, v)].yes == seenV(el, newRoot.ID, el.getFrameRoots(newRoot.Slot.Frame - 1), len(el.getFrameRoots(newRoot.Slot.Frame - 1)), v))
+//@   ensures  [majority] old(newRoot.Slot.Frame > el.frameToDecide + 1) ==> forall(v idx.ValidatorID, has(el.votes, vid(newRoot, v)) && !old(has(el.votes, vid(newRoot, v))) ==> el.votes[vid(newRoot, v)].yes == (ysumL(el, old(el.votes), gObs, v, len(gObs)) >= nsumL(el, old(el.votes), gObs, v, len(gObs))))
+//@   ensures  [decide] old(newRoot.Slot.Frame > el.frameToDecide + 1) ==> forall(v idx.ValidatorID, has(el.votes, vid(newRoot, v)) && !old(has(el.votes, vid(newRoot, v))) ==> el.votes[vid(newRoot, v)].decided == (ysumL(el, old(el.votes), gObs, v, len(gObs)) >= el.validators.cache.totalWeight*2/3 + 1 || nsumL(el, old(el.votes), gObs, v, len(gObs)) >= el.validators.cache.totalWeight*2/3 + 1))
+//@   loop 1 modifies el.votes[*], el.decidedRoots[*]
+//@   loop 1 invariant round == 1 ==> forall(v idx.ValidatorID, has(el.votes, vid(newRoot, v)) && !old(has(el.votes, vid(newRoot, v))) ==> !el.votes[vid(newRoot, v)].decided && el.votes[vid(newRoot, v)].yes == has(observedRootsMap, v))
+//@   loop 1 invariant round != 1 ==> observedRoots == gObs && forall(j, 0, len(observedRoots), observedRoots[j].Slot.Frame == newRoot.Slot.Frame - 1)
+//@   loop 1 invariant round != 1 ==> forall(v idx.ValidatorID, has(el.votes, vid(newRoot, v)) && !old(has(el.votes, vid(newRoot, v))) ==> el.votes[vid(newRoot, v)].yes == (ysumL(el, old(el.votes), observedRoots, v, len(observedRoots)) >= nsumL(el, old(el.votes), observedRoots, v, len(observedRoots))))
+//@   loop 1 invariant round != 1 ==> forall(v idx.ValidatorID, has(el.votes, vid(newRoot, v)) && !old(has(el.votes, vid(newRoot, v))) ==> el.votes[vid(newRoot, v)].decided == (ysumL(el, old(el.votes), observedRoots, v, len(observedRoots)) >= el.validators.cache.totalWeight*2/3 + 1 || nsumL(el, old(el.votes), observedRoots, v, len(observedRoots)) >= el.validators.cache.totalWeight*2/3 + 1))
+//@   loop 1 invariant 0 <= _k && _k <= len(_range) && elinv(el) && len(el.validators.values) >= 1
+//@   loop 1 invariant forall(k voteID, k.fromRoot != newRoot ==> has(el.votes, k) == old(has(el.votes, k)) && el.votes[k] == old(el.votes[k]))
+//@   loop 2 modifies yesVotes.sum, yesVotes.already[*], noVotes.sum, noVotes.already[*], allVotes.sum, allVotes.already[*]
+//@   loop 2 invariant 0 <= _k && _k <= len(_range) && cinv(yesVotes) && cinv(noVotes) && cinv(allVotes) && len(yesVotes.already) >= 1 && len(noVotes.already) >= 1 && len(allVotes.already) >= 1
+//@   loop 2 invariant yesVotes.validators.cache.weights == el.validators.cache.weights && yesVotes.validators.cache.indexes == el.validators.cache.indexes && yesVotes.validators.cache.totalWeight == el.validators.cache.totalWeight && yesVotes.validators.values == el.validators.values
+//@   loop 2 invariant noVotes.validators.cache.weights == el.validators.cache.weights && noVotes.validators.cache.indexes == el.validators.cache.indexes && noVotes.validators.cache.totalWeight == el.validators.cache.totalWeight && noVotes.validators.values == el.validators.values
+//@   loop 2 invariant allVotes.validators.cache.weights == el.validators.cache.weights && allVotes.validators.cache.indexes == el.validators.cache.indexes && allVotes.validators.values == el.validators.values
+//@   loop 2 invariant forall(i, 0, len(el.validators.values), (yesVotes.already[i] ==> allVotes.already[i]) && (noVotes.already[i] ==> allVotes.already[i]))
+//@   loop 2 invariant yesVotes.sum == ysumL(el, old(el.votes), observedRoots, validatorSubject, _k) && noVotes.sum == nsumL(el, old(el.votes), observedRoots, validatorSubject, _k)
+//@   loop 2 invariant yesVotes != noVotes && yesVotes != allVotes && noVotes != allVotes && arrof(yesVotes.already) != arrof(noVotes.already) && arrof(yesVotes.already) != arrof(allVotes.already) && arrof(noVotes.already) != arrof(allVotes.already)
